@@ -46,7 +46,7 @@ func (h *c07h) genS(r *rng, region string) *c07S {
 		fv := vg.val(s.sig, false)
 		s.spec = fv.Fn
 		// results must differ from the zero values, or a dead wrapper could not be told from a live one
-		zero := true
+		zero := false
 		for k := 0; k < 3; k++ {
 			var a []*cval
 			for _, p := range s.sig.In {
@@ -58,8 +58,8 @@ func (h *c07h) genS(r *rng, region string) *c07S {
 			s.args = append(s.args, a)
 		}
 		for _, a := range s.args {
-			if c07valStrings(s.spec.apply(a)) != c07valStrings(c07zeros(s.sig.Out)) {
-				zero = false
+			if c07valStrings(s.spec.apply(a)) == c07valStrings(c07zeros(s.sig.Out)) {
+				zero = true // for every argument set the results must differ from the zero values
 			}
 		}
 		if zero {
